@@ -4,11 +4,14 @@
    exists to quantify over.  That the code really has none left is what the correspondence under repeated
    invocation and under every permutation of small file lists checks on each run.  Proved (3-4): permuting
    the list of files never changes whether the merge succeeds — "conflict-free" (Spec/MergeSpec.v) is
-   invariant under permutation and merge succeeds exactly on conflict-free sets (Proofs/MergeIff.v).  That a
-   successful merge of a permuted list returns the same types up to order is observed per run, not proved
-   (relation maps would have to be compared up to Go map order). *)
+   invariant under permutation and merge succeeds exactly on conflict-free sets (Proofs/MergeIff.v).  Proved (6-7,
+   Proofs/MergeContent.v): a successful merge of a permuted list returns the same model up to the order of the
+   type definitions and the enumeration order of maps — same schema, the type names are a permutation, every
+   type reads back the same module and file, every relation the same rewrite and the same metadata, every
+   condition the same definition (Go maps are association lists in the model, so equality of all lookups is
+   equality of the maps). *)
 From Coq Require Import Permutation.
-From Verif Require Import Base.Str Base.Outcome Model.Ast Model.Merge Spec.MergeSpec Proofs.MergeProofs Proofs.MergeIff Proofs.MergeWf.
+From Verif Require Import Base.Str Base.Outcome Model.Ast Model.Merge Spec.MergeSpec Spec.MergeObs Proofs.MergeProofs Proofs.MergeIff Proofs.MergeContent Proofs.MergeWf.
 
 Theorem C12_function_of_the_list : forall fs fs' v v', fs = fs' -> v = v' -> merge fs v = merge fs' v'.
 Proof. intros; subst; reflexivity. Qed.
@@ -32,3 +35,25 @@ Proof. exact merge_success_order_independent. Qed.
 Theorem C12_verdict_independent_of_file_order_for_all_files : forall fs fs' v,
   NoDup (map mf_name fs) -> Permutation fs fs' -> ((exists m, merge fs v = Ok m) <-> (exists m', merge fs' v = Ok m')).
 Proof. exact merge_order_unconditional. Qed.
+
+(* 6. on success, permuting the files changes nothing but the order of the type definitions *)
+Theorem C12_result_independent_of_file_order : forall fs fs' v m m',
+  wf_modules fs -> Permutation fs fs' -> merge fs v = Ok m -> merge fs' v = Ok m' ->
+  m_schema m = m_schema m' /\
+  Permutation (map td_name (m_types m)) (map td_name (m_types m')) /\
+  (forall T, type_attr (m_types m) T = type_attr (m_types m') T) /\
+  (forall T r, rel_body (m_types m) T r = rel_body (m_types m') T r /\
+               (rel_body (m_types m) T r <> None -> rel_attr (m_types m) T r = rel_attr (m_types m') T r)) /\
+  (forall n, assoc n (m_conds m) = assoc n (m_conds m')).
+Proof. exact merge_content_order_independent. Qed.
+
+(* 7. the same for every list of files with distinct names *)
+Theorem C12_result_independent_of_file_order_for_all_files : forall fs fs' v m m',
+  NoDup (map mf_name fs) -> Permutation fs fs' -> merge fs v = Ok m -> merge fs' v = Ok m' ->
+  m_schema m = m_schema m' /\
+  Permutation (map td_name (m_types m)) (map td_name (m_types m')) /\
+  (forall T, type_attr (m_types m) T = type_attr (m_types m') T) /\
+  (forall T r, rel_body (m_types m) T r = rel_body (m_types m') T r /\
+               (rel_body (m_types m) T r <> None -> rel_attr (m_types m) T r = rel_attr (m_types m') T r)) /\
+  (forall n, assoc n (m_conds m) = assoc n (m_conds m')).
+Proof. exact merge_content_order_unconditional. Qed.
